@@ -824,7 +824,7 @@ def c04(run):
 
 # ----------------------------------------------------------------------------- XtCli (C13, C14, C15)
 
-def cli_stage(run, cfg, what, tty_maxlen=2, file_maxlen=2, extra_vectors=(), stdin_content=None, failing_stdout=False, required=None, stdin_file=False):
+def cli_stage(run, cfg, what, tty_maxlen=2, file_maxlen=2, extra_vectors=(), stdin_content=None, failing_stdout=False, required=None, stdin_file=False, slow_reader=False):
     import clicheck, cli
     root = clicheck.prepare("%s-%s" % (run.pid, run.tier))
     # one directory of files per worker thread (a FIFO operand cannot be shared by concurrent runs)
@@ -879,6 +879,9 @@ def cli_stage(run, cfg, what, tty_maxlen=2, file_maxlen=2, extra_vectors=(), std
             jobs.append((r, "file", xt_rel if n % 2 else xt_dbg))
         if stdin_file and kind == "pipe" and r.get("used"):
             jobs.append((r, "stdinfile", xt_rel if n % 2 else xt_dbg))
+        if slow_reader and kind == "pipe" and r["exit"] == 1 and not any(t in clicheck.FIFOS for t in r["argv"]) \
+                and any(clicheck.FILES.get(t) in ("cbig", "chuge", "cbigbad") for t in r["argv"]):
+            jobs.append((r, "slowpipe", xt_rel if n % 2 else xt_dbg))     # > 8 KiB of output before a failing input, consumer reads late
 
     def one(job):
         pred, kind, binary = job
@@ -983,7 +986,7 @@ def c15(run):
         v.insert(rnd.randrange(len(v) + 1), rnd.choice(["-tt", "-ty", "-tm", "-tjson"]))
         extra.append(v)
     cli_stage(run, _q(run, "MC_XtCli_c15.cfg", "MC_XtCli_c15_thorough.cfg"), "finished inputs are on the descriptor at every exit (Survives, AllOut)",
-              tty_maxlen=0, file_maxlen=9, extra_vectors=extra)
+              tty_maxlen=0, file_maxlen=9, extra_vectors=extra, slow_reader=True)
     # "at a successful exit every byte of output has been written": a descriptor that refuses the bytes
     # (/dev/full) when the buffer is finally flushed must not end in exit 0
     cli_stage(run, "MC_XtCli_c15_full.cfg", "a descriptor that refuses the flushed bytes is never a successful exit (NoSuccessWithLostOutput)",
